@@ -363,7 +363,7 @@ func runC10store(c *Ctx) {
 	t := c.Scen
 	cases := 3
 	if c.Tier == "thorough" {
-		cases = 12
+		cases = 5
 	}
 	for k := 0; k < cases; k++ {
 		disk := NewSimDisk()
@@ -618,7 +618,7 @@ func runC10storeFail(c *Ctx) {
 	t := c.Scen
 	cases := 2
 	if c.Tier == "thorough" {
-		cases = 6
+		cases = 3
 	}
 	for k := 0; k < cases; k++ {
 		var hist []c10sop
@@ -672,6 +672,8 @@ func runC10storeFail(c *Ctx) {
 		step := 1
 		if c.Tier != "thorough" && nOps > 24 {
 			step = nOps/24 + 1
+		} else if nOps > 80 {
+			step = nOps/80 + 1
 		}
 		for j := 0; j < nOps; j += step {
 			js = append(js, j)
@@ -714,6 +716,6 @@ func init() {
 		Real: []string{"internal/storage.BlockRepository (Load, Add, AddNext, Save, Revert)"},
 		Stub: []string{"disk: simdisk with one failing operation; the caller (save, then try the step again) stands in for Node.Run's reconnect"},
 		Req:  []string{"store_single_failure_checked"},
-		Rule: "per case a history of adds (Add/AddNext), saves and reverts around the 1000-header file boundaries is run once fault-free to count its storage operations, then once per failure position (thorough: every position; quick: 24 evenly spread) with that one operation returning an error; the caller saves and tries the step again like the node does. Afterwards the running repository and a repository newly loaded from the disk must both equal the model chain at every height.",
+		Rule: "per case a history of adds (Add/AddNext), saves and reverts around the 1000-header file boundaries is run once fault-free to count its storage operations, then once per failure position (thorough: every position up to 80, evenly spread beyond; quick: 24 evenly spread) with that one operation returning an error; the caller saves and tries the step again like the node does. Afterwards the running repository and a repository newly loaded from the disk must both equal the model chain at every height.",
 		Run:  runC10storeFail})
 }
